@@ -357,7 +357,11 @@ func c03One(i int, r *rand.Rand, res *core.Result) {
 			res.Count("reference_cannot_parse_accepted_spec", 1)
 			return
 		}
-		got, _, _ := h.tick(0)
+		got, _, tickOK := h.tick(0)
+		if !tickOK {
+			viol("work-does-not-terminate", "CronWorker.Work() did not return at %v (more than %d clock readings in one tick)", h.clk.T.UTC(), h.clk.Reads-1)
+			return
+		}
 		res.Evaluations++
 		keys := map[string]bool{}
 		for k := range m.refs {
